@@ -20,6 +20,7 @@ import (
 
 type pktWeights struct {
 	send, relay, ackRelay, replay, mutateRecv, mutateAck, ackConflict, commit, update int
+	cbErr int // percentage of sends whose destination callback makes CallPacket return an error
 }
 
 type pktGen struct {
@@ -68,15 +69,24 @@ func pktReplayParams(t *testing.T) (seed int64, shard int, tier string, ok bool)
 }
 
 func pktRun(t *testing.T, id string, wt pktWeights) {
-	if seed, shard, tier, ok := pktReplayParams(t); ok {
-		os.Setenv("VERIF_SEED", strconv.FormatInt(seed, 10))
-		if shard != 0 {
-			os.Setenv("VERIF_SHARD", strconv.Itoa(shard))
-		}
-		os.Setenv("VERIF_TIER", tier)
+	rseed, rshard, rtier, isReplay := pktReplayParams(t)
+	if isReplay {
+		os.Setenv("VERIF_SEED", strconv.FormatInt(rseed, 10))
+		os.Setenv("VERIF_TIER", rtier)
+	} else if os.Getenv("VERIF_REPLAY") != "" {
+		// an op list without the replay header cannot be replayed on the real chains (proofs are referenced by id)
+		r := NewRec(t, id)
+		r.Extra["replay"] = "no '# replay' header in the replay file: nothing executed"
+		r.Close()
+		return
 	}
 	r := NewRec(t, id)
 	defer r.Close()
+	if isReplay && rshard != 0 {
+		// same PRNG stream as the shard that found it (output files keep the unsharded names ./check expects)
+		r.Shard = rshard
+		r.Rng = rand.New(rand.NewSource(rseed*1000003 + int64(rshard)*7919 + int64(len(id))))
+	}
 	nHist, nSteps := 4, 480
 	if r.Tier == "thorough" {
 		nHist, nSteps = 5, 600
@@ -88,7 +98,8 @@ func pktRun(t *testing.T, id string, wt pktWeights) {
 		nSteps = int(v)
 	}
 	for hIdx := 0; hIdx < nHist; hIdx++ {
-		w := pktNewWorld(t, r)
+		// histories 1 and 2 of every four run under mixed-case chain names (Teleport-A, abc, Abc)
+		w := pktNewWorld(t, r, hIdx%4 == 1 || hIdx%4 == 2)
 		w.hist = append([]string{pktReplayHeader(id, r.Seed, r.Shard, r.Tier)}, w.hist...)
 		g := &pktGen{w: w, rng: r.Rng, id: id, wt: wt}
 		g.setup(hIdx)
@@ -198,29 +209,28 @@ func (g *pktGen) doSend() {
 		dst = w.chains[g.rng.Intn(3)]
 	}
 	dstName := dst.name
-	var contract string
-	var call []byte
-	switch g.rng.Intn(8) {
-	case 0: // unknown destination: SendPacket fails, the EVM tx reverts
+	mech := "n"
+	switch x := g.rng.Intn(100); {
+	case x < 8: // unknown destination: SendPacket fails, the EVM tx reverts
 		dstName = "nowhere-1"
-	case 1: // call data for an address without code
-		contract = strings.ToLower(src.tc.SenderAddress.String())
-		call = make([]byte, 4+g.rng.Intn(40))
-		g.rng.Read(call)
-	case 2, 3: // garbage call to a real contract of the destination chain: the execution on the destination fails
-		contract = strings.ToLower(dst.erc20.String())
-		call = make([]byte, 4+g.rng.Intn(40))
-		g.rng.Read(call)
+	case x < 14:
+		mech = "eoa"
+	case x < 26:
+		mech = "garbage"
+	case x < 26+g.wt.cbErr:
+		mech = []string{"evm-revert", "hook-staking", "hook-agent", "evm-revert", "hook-staking", "hook-agent", "baddr"}[g.rng.Intn(7)]
 	}
+	cs := w.callSpec(src, dst, mech, func(b []byte) { g.rng.Read(b) })
 	amount := int64(1 + g.rng.Intn(1000))
-	if s := w.send(src, dstName, amount, contract, call, uint64(g.rng.Intn(3))); s != nil {
+	if (mech == "evm-revert" || mech == "hook-staking") && g.rng.Intn(4) == 0 {
+		amount = 0 // call-only packet: empty transfer data
+	}
+	if s := w.send(src, dstName, amount, cs, uint64(g.rng.Intn(3))); s != nil {
 		w.r.Nontrivial("send:" + s.p.SrcChain + ">" + s.p.DstChain + ":" + fmt.Sprint(s.p.Sequence))
 	}
 	g.maybeCommit(src)
 }
 
-// provable makes sure that the state of `of` containing everything delivered so far is covered by a consensus
-// state of the client `of.name` on chain c; returns the proof height.
 func (g *pktGen) provable(c, of *pktChain) (uint64, bool) {
 	w := g.w
 	w.commit(of)
@@ -440,16 +450,22 @@ func (g *pktGen) mutatePacket(p packettypes.Packet, f int) packettypes.Packet {
 	w := g.w
 	switch f {
 	case 0:
-		if g.rng.Intn(2) == 0 {
+		switch g.rng.Intn(3) {
+		case 0:
 			p.SrcChain = w.chains[g.rng.Intn(3)].name
-		} else {
+		case 1:
 			p.SrcChain = p.SrcChain + "x"
+		default:
+			p.SrcChain = pktSwapCase(p.SrcChain)
 		}
 	case 1:
-		if g.rng.Intn(2) == 0 {
+		switch g.rng.Intn(3) {
+		case 0:
 			p.DstChain = w.chains[g.rng.Intn(3)].name
-		} else {
+		case 1:
 			p.DstChain = "nowhere-1"
+		default:
+			p.DstChain = pktSwapCase(p.DstChain)
 		}
 	case 2:
 		p.Sequence = p.Sequence + uint64(g.rng.Intn(3)) - 1
@@ -871,13 +887,26 @@ func (g *pktGen) doAckConflict() {
 }
 
 func TestC01(t *testing.T) {
-	pktRun(t, "C01", pktWeights{send: 14, relay: 14, ackRelay: 8, replay: 40, commit: 4, update: 4})
+	pktRun(t, "C01", pktWeights{send: 14, relay: 14, ackRelay: 8, replay: 40, commit: 4, update: 4, cbErr: 24})
 }
 
 func TestC05(t *testing.T) {
-	pktRun(t, "C05", pktWeights{send: 16, relay: 16, ackRelay: 14, replay: 4, mutateAck: 8, ackConflict: 34, commit: 4, update: 4})
+	pktRun(t, "C05", pktWeights{send: 16, relay: 16, ackRelay: 14, replay: 4, mutateAck: 8, ackConflict: 34, commit: 4, update: 4, cbErr: 30})
 }
 
 func TestC02(t *testing.T) {
-	pktRun(t, "C02", pktWeights{send: 14, relay: 8, ackRelay: 8, replay: 2, mutateRecv: 32, mutateAck: 28, ackConflict: 2, commit: 3, update: 3})
+	pktRun(t, "C02", pktWeights{send: 14, relay: 8, ackRelay: 8, replay: 2, mutateRecv: 32, mutateAck: 28, ackConflict: 2, commit: 3, update: 3, cbErr: 26})
+}
+
+// pktSwapCase flips the case of the first letter (a name differing only in case).
+func pktSwapCase(s string) string {
+	for i, ch := range s {
+		if ch >= 'a' && ch <= 'z' {
+			return s[:i] + strings.ToUpper(string(ch)) + s[i+1:]
+		}
+		if ch >= 'A' && ch <= 'Z' {
+			return s[:i] + strings.ToLower(string(ch)) + s[i+1:]
+		}
+	}
+	return s
 }
